@@ -6,8 +6,10 @@ import (
 	"github.com/aperturerobotics/bifrost/peer"
 	"github.com/aperturerobotics/bifrost/pubsub"
 	"github.com/aperturerobotics/bifrost/pubsub/floodsub"
+	"slices"
 	"sort"
 	"strings"
+	"sync/atomic"
 	"testing"
 	"time"
 
@@ -30,6 +32,11 @@ type c28Case struct {
 	// Same[i]: publish i repeats the payload of the previous publish of the same node on the same channel (a second,
 	// distinct message with identical content)
 	Same []bool `json:"same,omitempty"`
+	// ViaCtl: every node's FloodSub is built by the real pubsub controller, which is told about the links and opens
+	// / accepts the pubsub streams itself. LateStart is the bitmask of nodes whose controller starts running only
+	// after all links have been reported to it (links that are up before pubsub starts)
+	ViaCtl    bool `json:"via_ctl,omitempty"`
+	LateStart int  `json:"late_start,omitempty"`
 }
 
 var c28Channels = []string{"x", "y"}
@@ -76,19 +83,47 @@ func genC28(t *rapid.T) c28Case {
 	return c
 }
 
+func genC28Ctl(t *rapid.T) c28Case {
+	c := genC28(t)
+	c.ViaCtl = true
+	switch rapid.IntRange(0, 2).Draw(t, "latemode") {
+	case 0:
+		c.LateStart = (1 << c.N) - 1
+	case 1:
+		c.LateStart = rapid.IntRange(0, (1<<c.N)-1).Draw(t, "latestart")
+	}
+	return c
+}
+
 func checkC28(c c28Case) (o vstat.Outcome) {
 	nodes := make([]*node, c.N)
+	lateStart := func(i int) bool { return c.ViaCtl && c.LateStart&(1<<i) != 0 }
 	for i := range nodes {
-		n, err := newNode(i, i)
-		if err != nil {
-			o.Discard = true
-			return
+		var n *node
+		if c.ViaCtl {
+			n = newCtlNode(i, i)
+			if !lateStart(i) {
+				if err := n.start(); err != nil {
+					n.close()
+					o.Discard = true
+					return
+				}
+			}
+		} else {
+			var err error
+			n, err = newNode(i, i)
+			if err != nil {
+				o.Discard = true
+				return
+			}
 		}
 		defer n.close()
 		nodes[i] = n
 	}
 	subscribed := func(i, ch int) bool { return c.Subs[ch]&(1<<i) != 0 }
-	late := func(i, ch int) bool { return ch < len(c.Resub) && c.Resub[ch]&(1<<i) != 0 && subscribed(i, ch) }
+	late := func(i, ch int) bool {
+		return ch < len(c.Resub) && c.Resub[ch]&(1<<i) != 0 && subscribed(i, ch) && !lateStart(i)
+	}
 	anyLate := false
 	var earlySubs []pubsub.Subscription
 	for ch := range c.Subs {
@@ -128,6 +163,8 @@ func checkC28(c c28Case) (o vstat.Outcome) {
 	}
 	multi := false
 	var dirs []*pipeDir
+	var ups []*atomic.Bool
+	noSession := map[int]bool{} // directions of links over which no pubsub session came up
 	// barrier channels: "barrier-<k>" is subscribed only by the receiving node of direction k
 	for k := 0; k < 2*len(c.Edges); k++ {
 		e := c.Edges[k/2]
@@ -144,9 +181,43 @@ func checkC28(c c28Case) (o vstat.Outcome) {
 		if adj[e[0]][e[1]] {
 			multi = true
 		}
-		ab, ba := connect(tp, nodes[e[0]], nodes[e[1]], uint64(100+i))
+		var ab, ba *pipeDir
+		if c.ViaCtl {
+			var cerr error
+			var up *atomic.Bool
+			ab, ba, up, cerr = connectCtl(tp, nodes[e[0]], nodes[e[1]], uint64(100+i))
+			ups = append(ups, up)
+			if cerr != nil {
+				o.V = vstat.Viol("controller-setup", "%v", cerr)
+				return
+			}
+		} else {
+			ab, ba = connect(tp, nodes[e[0]], nodes[e[1]], uint64(100+i))
+		}
 		dirs = append(dirs, ab, ba)
 		adj[e[0]][e[1]], adj[e[1]][e[0]] = true, true
+	}
+	if c.ViaCtl {
+		o.Classes = append(o.Classes, "through-the-pubsub-controller")
+		for i := range nodes {
+			if lateStart(i) {
+				if (len(adj[i]) >= 2 || multi) && !slices.Contains(o.Classes, "several-links-up-before-pubsub-starts") {
+					o.Classes = append(o.Classes, "several-links-up-before-pubsub-starts")
+				}
+				if err := nodes[i].start(); err != nil {
+					o.Discard = true
+					return
+				}
+			}
+		}
+		// every link gets its pubsub session (eventual); a link that does not is left out of the barriers below and
+		// the delivery clauses decide whether anyone is cut off by it
+		for i, up := range ups {
+			if !waitFor(6*time.Second, up.Load) {
+				noSession[2*i], noSession[2*i+1] = true, true
+				o.Classes = append(o.Classes, "(link-without-pubsub-session)")
+			}
+		}
 	}
 	// wait until every node has told every neighbour about each of its subscriptions
 	announced := func() bool {
@@ -158,7 +229,10 @@ func checkC28(c c28Case) (o vstat.Outcome) {
 				}
 			}
 		}
-		for _, e := range c.Edges {
+		for ei, e := range c.Edges {
+			if noSession[2*ei] {
+				continue
+			}
 			for ch := range c.Subs {
 				for _, d := range [][2]int{{e[0], e[1]}, {e[1], e[0]}} {
 					if subscribed(d[0], ch) && !have[fmt.Sprintf("%d>%d:%s", d[0], d[1], c28Channels[ch])] {
@@ -192,6 +266,9 @@ func checkC28(c c28Case) (o vstat.Outcome) {
 	// the harness behind the announcements has reached the receiver's handler, the announcements before it
 	// have been applied. The barrier channel of a direction is subscribed by its receiver only (not forwarded).
 	for k, d := range dirs {
+		if noSession[k] {
+			continue
+		}
 		m := mkPub("honest", 9, 9, fmt.Sprintf("barrier-%d", k), "", []byte(fmt.Sprintf("barrier-%d", k)))
 		if err := d.inject(&floodsub.Packet{Publish: []*peer.SignedMsg{m}}); err != nil {
 			o.Discard = true
@@ -200,6 +277,9 @@ func checkC28(c c28Case) (o vstat.Outcome) {
 	}
 	barriersDone := func() bool {
 		for k, d := range dirs {
+			if noSession[k] {
+				continue
+			}
 			ok := false
 			for _, x := range nodes[d.to].deliveries() {
 				if x.data == fmt.Sprintf("barrier-%d", k) {
@@ -390,5 +470,17 @@ var specC28 = vstat.Spec[c28Case]{
 	Inflight:    true,
 }
 
-func TestC28(t *testing.T)       { vstat.Check(t, specC28) }
-func TestC28Replay(t *testing.T) { vstat.Replay(t, specC28) }
+var specC28Ctl = vstat.Spec[c28Case]{
+	Property: "C28",
+	Rule: "the TestC28 networks with every node's FloodSub built and fed by the real pubsub controller: the controllers are told about the links (fake mounted links), the side with the lower peer id opens the pubsub stream and the other controller's stream handler gets the far end; in two thirds of the cases some or all controllers start running only after their links were reported; " +
+		"oracle and non-trivial rule as TestC28",
+	Assumptions: specC28.Assumptions,
+	Gen:         genC28Ctl,
+	Check:       checkC28,
+	Inflight:    true,
+}
+
+func TestC28Ctl(t *testing.T)       { vstat.Check(t, specC28Ctl) }
+func TestC28CtlReplay(t *testing.T) { vstat.Replay(t, specC28Ctl) }
+func TestC28(t *testing.T)          { vstat.Check(t, specC28) }
+func TestC28Replay(t *testing.T)    { vstat.Replay(t, specC28) }
